@@ -18,11 +18,6 @@ KEYS = {
     "int-accepts-non-int32": lambda c: "(num " in c and '"Int"' in c,
     "id-accepts-non-integer-number": lambda c: re.search(r'\(num "[^"]*[.eE]', c) is not None and '"ID"' in c,
     "upload-exempt-from-non-null": lambda c: '"Upload"' in c,
-    "field-null-uses-field-default": lambda c: "(null)" in c and "(some " in c,
-    "list-element-null-uses-field-default": lambda c: "(null)" in c and "(some " in c and "(arr" in c,
-    "inject-defaults-index-drift": lambda c: "(arr" in c,
-    "inject-defaults-enum-ref": lambda c: "(enum " in c and ("(arr" in c or "(obj" in c),
-    "inject-defaults-string-reparsed": lambda c: re.search(r'\(str "(\{\}|\[\]|null|true|false|-?[0-9.eE+-]+)"\)', c) is not None,
     "remap-name-collision-upload": lambda c: '"Upload"' in c,
     "unknown-field-echo": lambda c: "unknown_field" in c,
 }
